@@ -27,8 +27,13 @@ theorem load_of_goodAtL {sys : Sys S} (hl : Lawful sys) (s0 : S) {total i : Nat}
   have hne : ((List.range sys.nsamp).map (sys.encSample (sAfter sys s0 (i + 1)))).isEmpty = false := by
     obtain ⟨m, hm⟩ : ∃ m, sys.nsamp = m + 1 := ⟨sys.nsamp - 1, by have := hl.nsamp_pos; omega⟩
     rw [hm, List.range_succ]; simp
+  have hcond : ((sys.encMean (sAfter sys s0 (i + 1))).isNone &&
+      ((List.range sys.nsamp).map (sys.encSample (sAfter sys s0 (i + 1)))).length != 1) = false := by
+    cases hm : sys.encMean (sAfter sys s0 (i + 1)) with
+    | some c => simp
+    | none => simp [hl.map_one _ hm]
   unfold load
-  simp only [if_true, h1, hl.parse_digits, baseOf, hf.2.2, hls, hne, hl.dec_enc, loadable, hr, hor, he, hoe]
+  simp only [if_true, h1, hl.parse_digits, baseOf, hf.2.2, hls, hne, hcond, hl.dec_enc, loadable, hr, hor, he, hoe]
   by_cases ht : i + 1 = total
   · simp [ht]
   · simp [ht]
@@ -97,11 +102,12 @@ theorem iterOpsA_frame_mhist (sys : Sys S) (j : Nat) (s' : S) (fs : FS Path) :
   rcases ho with ((rfl | ho) | ho) | ho
   · simp [Op.touches] at hq
   · simp only [saveSamples, saveOne, List.mem_cons, List.mem_append] at ho
-    rcases ho with rfl | ho | ho
+    rcases ho with rfl | ho | ho | ho
     · simp [Op.touches] at hq
+    · cases unlinkMean_touches sys _ _ s' _ o ho hq
     · rcases flatMap_atomic_touches (fun k => .sample .latest k) (fun k => .sampleTmp .latest k)
         (fun k => sys.encSample s' k) (List.range sys.nsamp) _ o ho hq with ⟨k, _, h | h⟩ <;> cases h
-    · rcases atomicWrite_touches _ _ _ _ o ho hq with h | h <;> cases h
+    · rcases saveMean_touches sys _ s' _ o ho hq with h | h <;> cases h
   · rcases atomicWrite_touches _ _ _ _ o ho hq with h | h <;> cases h
   · cases appendFile_touches _ _ _ o ho hq
 
